@@ -279,7 +279,12 @@ func (i *IPC) ProxyAnswers(arg messages.Arg, response *[]byte) error {
 
 	if success {
 		verifhook.Point("broker.answer.before-send", id)
-		snowflake.answerChannel <- answer
+		// The channel has room for one answer, so this never blocks, even
+		// when the client has just timed out and is no longer receiving.
+		select {
+		case snowflake.answerChannel <- answer:
+		default:
+		}
 	}
 
 	return nil
